@@ -57,6 +57,10 @@ def classify(c, impl, model=None):
     why = oracle(c, impl) or ""
     if "handed out again" in why and model and re.search(r"stalerows=[0-9]", model):
         return "SegmentLabelReused"
+    m = re.search(r"segment (\d+) differs", why)
+    ops = [tuple(o)[0] for o in c["ops"]]
+    if m and int(m.group(1)) < 10000 and "C" in ops and ("R" in ops[ops.index("C"):] or "X" in ops):
+        return "L0IdReusedAfterCompactionAndRestart"
     if "exists without files" in why or "incomplete" in why:
         return "CrashLeftoverDirectoryBecomesLive"
     return None
